@@ -117,6 +117,15 @@ Definition key_eqb (a b : val) : bool :=
   | _, _ => false
   end.
 
+(* the pending-field test of a statement group *)
+Definition op_match (op : dop) (st : dstate) : bool :=
+  match op with
+  | DScalar _ _ _ _ num | DMsgPtr _ num _ | DMsgRepPtr _ num _ | DMsgPresent _ num _ | DMsgRepVal _ num _
+  | DEnum _ num | DRepEnum _ num | DCast _ _ _ _ num | DOneof _ num _ _ => pf st =? num
+  | DOpaque _ _ => true
+  | DUnrec mask => (0 <=? pf st) && ((64 <=? pf st) || negb (Z.testbit mask (pf st)))
+  end.
+
 Section Dec.
 Variable progs : list prog.
 (* one fuel for every loop of this Unmarshal call: > length of the whole input + 1 *)
@@ -166,7 +175,7 @@ Fixpoint while_pending (fuel : nat) (num : Z) (step : dstate -> list val -> dsta
   | S f => if pf st =? num then let '(st', l') := step st l in while_pending f num step st' l' else (st, l)
   end.
 
-Fixpoint dec_op (op : dop) (st : dstate) (t : msgv) {struct op} : dstate * msgv :=
+Definition dec_op_run (op : dop) (st : dstate) (t : msgv) : dstate * msgv :=
   match op with
   | DScalar k rep ptr slot num =>
       let v := slot_get (fst t) slot in
@@ -268,6 +277,11 @@ Fixpoint dec_op (op : dop) (st : dstate) (t : msgv) {struct op} : dstate * msgv 
   | DUnrec mask =>
       let '(st', out) := dec_unrecognized F mask st (snd t) in (st', (fst t, out))
   end.
+
+(* Every emitted statement group starts with (or is) a test of the pending field; when the test
+   fails the statement leaves the message untouched. *)
+Definition dec_op (op : dop) (st : dstate) (t : msgv) : dstate * msgv :=
+  if op_match op st then dec_op_run op st t else (st, t).
 
 Definition dec_body (ops : list dop) : @body msgv :=
   fun st t => fold_left (fun acc op => dec_op op (fst acc) (snd acc)) ops (st, t).
